@@ -1051,6 +1051,10 @@ func buildIntrinsics() map[string]intrinsic {
 		}
 		return nil
 	})
+	reg(vfn("SchedPreempt"), func(ex *Exec, fr *frame, fn *ssa.Function, args []Value) Value {
+		ex.preemptLeft = int(ex.concretize(args[0].(*Term), "SchedPreempt"))
+		return nil
+	})
 	reg(vfn("RandBudget"), func(ex *Exec, fr *frame, fn *ssa.Function, args []Value) Value {
 		ex.randBudget = int(ex.concretize(args[0].(*Term), "RandBudget"))
 		return nil
